@@ -87,6 +87,14 @@ def run(case):
     if not ok:
         return out
     out.check(m.df.equals(before), "input_list_modified", "")
+    if case["table"].get("index", "default") != "default" or n % 2:
+        # two live results of the same request: the first is edited in place, the second must still be the orbit
+        _faults.scribble(r)
+        out.label("first_result_edited_before_second_call")
+        ok, r = call(out, "split_in_asymmetric_subunits", lambda: m.split_in_asymmetric_subunits(sym, s_arg))
+        if not ok:
+            return out
+        out.check(m.df.equals(before), "input_list_modified_by_editing_the_result", "")
     df = r.df
     C = oracle.MOTL_COLUMNS
     if not out.check(sorted(df.columns) == sorted(C) and len(df.columns) == 20, "columns", list(df.columns)):
@@ -146,3 +154,10 @@ def run(case):
             return out
     out.check(len(seen) == n * N, "missing_subunits", f"{len(seen)} of {n * N}")
     return out
+
+
+# rejected calls that run before every case (vlib/faults.py): nothing they leave behind - module state, library options,
+# stray files - may make the valid calls of the case violate the statement
+from vlib import faults as _faults  # noqa: E402
+
+fault_calls = _faults.for_property(ID)
